@@ -30,6 +30,13 @@ class EndOfInput(Exception):
     pass
 
 
+class OutOfWindow(Unknown):
+    """a read or a move of the cursor beyond the bytes buffered on the path being walked (a definite finding, with the path)"""
+    def __init__(self, text, choices=()):
+        Unknown.__init__(self, text)
+        self.choices = tuple(choices)
+
+
 class Chooser:
     def __init__(self, prefix):
         self.prefix = list(prefix)
@@ -146,7 +153,7 @@ class _Eval:
     # ---- input bytes
     def byte_at(self, off):
         if off < 0 or off >= self.st.window:
-            raise Unknown("reads the byte at cursor%+d with %d byte(s) buffered" % (off, self.st.window))
+            raise OutOfWindow("reads the byte at cursor%+d with %d byte(s) buffered" % (off, self.st.window), self.ch.taken)
         return {self.st.moves + off: 0}
 
     def mentions_input(self, e):
@@ -222,7 +229,7 @@ class _Eval:
         if n < 0:
             raise Unknown("the cursor moves backwards")
         if n > self.st.window:
-            raise Unknown("the cursor moves %d byte(s) with %d buffered" % (n, self.st.window))
+            raise OutOfWindow("moves the cursor by %d byte(s) with %d buffered" % (n, self.st.window), self.ch.taken)
         self.st.moves += n
         self.st.window -= n
 
